@@ -56,7 +56,7 @@ def run(ctx):
     big = [{"N": 3, "K": 2, "M": 1, "Confs": ALL, "ReadOutsideLock": outside},
            {"N": 3, "K": 2, "M": 1, "Confs": DEFAULT, "ReadOutsideLock": not outside}] if ctx.quick else \
           [{"N": 3, "K": 2, "M": 3 if not outside else 2, "Confs": DEFAULT, "ReadOutsideLock": outside},
-           {"N": 3, "K": 2, "M": 2 if not outside else 1, "Confs": ALL, "ReadOutsideLock": outside},
+           {"N": 3, "K": 2, "M": 2 if not outside else 1, "Confs": EAGER, "ReadOutsideLock": outside},
            {"N": 3, "K": 2, "M": 2, "Confs": DEFAULT, "ReadOutsideLock": not outside}]
     reached = set()
     for consts in big:
